@@ -666,6 +666,16 @@ func Go4[A, B, C, D any](site int, f func(A, B, C, D), a A, b B, c C, d D) {
 	Go0(site, func() { f(a, b, c, d) })
 }
 
+// Go5 see Go1.
+func Go5[A, B, C, D, E any](site int, f func(A, B, C, D, E), a A, b B, c C, d D, e E) {
+	Go0(site, func() { f(a, b, c, d, e) })
+}
+
+// Go6 see Go1.
+func Go6[A, B, C, D, E, F any](site int, f func(A, B, C, D, E, F), a A, b B, c C, d D, e E, g F) {
+	Go0(site, func() { f(a, b, c, d, e, g) })
+}
+
 // Go is Go0.
 func Go(site int, f func()) { Go0(site, f) }
 
@@ -738,6 +748,16 @@ func Since(t time.Time) time.Duration {
 	}
 	return Now().Sub(t)
 }
+
+// CurrentTask returns the id of the task holding the baton (-1 during a rendezvous hand-over or outside a run).
+//
+//go:norace
+func CurrentTask() int { return int(s.current) }
+
+// Steps returns the number of scheduling steps so far (the logical clock).
+//
+//go:norace
+func Steps() int { return int(s.steps) }
 
 // Probe counts that a branch of interest was reached.
 //
